@@ -1767,6 +1767,19 @@ impl LsmTree {
     }
 
     pub(crate) fn take_snapshot(&self) -> VersionRef<'_> {
+        // With the hooks on: the same clone, with the event (which version was taken) recorded
+        // while the version mutex is held and the pause point after it has been released.
+        #[cfg(rescrv_blue_verif)]
+        let version = {
+            let current = self.version.lock().unwrap();
+            let version = Arc::clone(&*current);
+            let id = crate::verif::version_id(Arc::as_ptr(&version) as usize);
+            crate::verif::emit("tree.snapshot", [id, 0, 0]);
+            drop(current);
+            crate::verif::pause("tree.snapshot", [id, 0, 0]);
+            version
+        };
+        #[cfg(not(rescrv_blue_verif))]
         let version = Arc::clone(&*self.version.lock().unwrap());
         VersionRef {
             tree: self,
@@ -1779,7 +1792,10 @@ impl LsmTree {
         let mut version1 = self.version.lock().unwrap();
         std::mem::swap(&mut *version1, &mut version2);
         #[cfg(rescrv_blue_verif)]
-        crate::verif::emit("tree.install", [0, 0, 0]);
+        crate::verif::emit(
+            "tree.install",
+            [crate::verif::version_installed(Arc::as_ptr(&*version1) as usize), 0, 0],
+        );
         self.explicit_unref(&version2);
     }
 
